@@ -1411,6 +1411,12 @@ fn main() {
                 let p = str_of(&v["p"]);
                 let mut full = vec![];
                 let mut find = vec![];
+                // what grex's own self-check looks at: the optimised engine's number of matches in the haystack
+                let meta = regex::Regex::new(&p);
+                let counts: Vec<Value> = v["hs"].as_array().unwrap().iter().map(|h| match &meta {
+                    Ok(re) => json!(re.find_iter(&str_of(h)).count()),
+                    Err(_) => Value::Null,
+                }).collect();
                 let vm = PikeVM::new(&p);
                 let vmf = PikeVM::new(&anchored_whole(&p));
                 for h in v["hs"].as_array().unwrap() {
@@ -1428,7 +1434,7 @@ fn main() {
                         _ => { full.push(Value::Null); find.push(Value::Null); }
                     }
                 }
-                writeln!(w, "{}", json!({"full": full, "find": find})).unwrap();
+                writeln!(w, "{}", json!({"full": full, "find": find, "meta_count": counts})).unwrap();
             }
         }
         "fromfile" => {
